@@ -12,7 +12,10 @@ EXPLANATION = (
     "a hybrid is never checked through info.files (so an independent encoder's missing trailing padding entry cannot "
     "matter); C05.3 every read of a leaf key the creators omit for empty files is guarded, and the reader's piece-layer "
     "predicate is the creators' strict length > piece length; plus the carried-buffer / iterator clauses shared with C04 "
-    "that make an intact torrent ending in an empty file or containing empty files still reach 100%.")
+    "that make an intact torrent ending in an empty file or containing empty files still reach 100%; C05.4 the bookkeeping "
+    "shared with C04.1 (result = matched / examined * 100 handed through unchanged; the payload total grows for exactly the entries "
+    "that are compared), without which intact content is reported as more or less than 100; C05.5 the piece length both piece checkers hash with "
+    "is the metafile's recorded value itself (origin term of the attribute = decoded['info']['piece length'], no creator-side normalisation in between).")
 RULE_TEXT = "one obligation per mapping fact; shared iterator clauses re-labelled"
 
 
@@ -21,6 +24,8 @@ def run(ctx):
     R.path_mapping(ctx, "C05.1")
     R.carried_buffer(ctx, "C05.2")
     R.stop_iteration_discipline(ctx, "C05.3")
+    R.bookkeeping(ctx, "C05.4")
+    R.recorded_piece_length(ctx, "C05.5")
 
 
 MUTANTS = MUT_C05
